@@ -5,6 +5,7 @@ MODULES = [
     'contracts.names',
     'contracts.taskdata',
     'contracts.taskfuncs',
+    'contracts.datacls',
 ]
 EXTRA_CHECKS = {}
 EXTRA_REPLAY = {}
